@@ -97,7 +97,7 @@ class Loop(Statement):
                     f"must also have the 'was_where' annotation but"
                     f" got: {annotations}")
 
-        super().__init__(self, annotations=annotations, **kwargs)
+        super().__init__(annotations=annotations, **kwargs)
         # Call the variable setter for error checking
         self._variable = None
         if variable is not None:
